@@ -311,7 +311,7 @@ def replay(case):
             match = lambda n, p, fl, **kw: F.fnmatch(n, p, flags=fl, **kw)
         want = match(n, pi, base) and not match(n, pe, base | dotflag)
         if how == 6:
-            want = (n[:1] != '.' and '/.' not in n) and not match(n, pe, base | dotflag)
+            want = (n[:1] != '.' and not (pathmode and '/.' in n)) and not match(n, pe, base | dotflag)
         got = [lambda: match(n, pi, base, exclude=pe), lambda: match(n, [pi, '!' + pe], base | mod.NEGATE),
                lambda: match(n, [pi, '-' + pe], base | mod.NEGATE | mod.MINUSNEGATE), lambda: match(n, pi, base | mod.NEGATE, exclude=[pe]),
                lambda: match(n, ['!' + pe, pi], base | mod.NEGATE), lambda: match(n, '!' + pe + '|' + pi, base | mod.NEGATE | mod.SPLIT),
